@@ -10,6 +10,7 @@ import (
 	"github.com/refraction-networking/uquic/internal/flowcontrol"
 	"github.com/refraction-networking/uquic/internal/monotime"
 	"github.com/refraction-networking/uquic/internal/protocol"
+	"github.com/refraction-networking/uquic/internal/verifhook"
 	"github.com/refraction-networking/uquic/internal/wire"
 )
 
@@ -186,6 +187,7 @@ func (s *SendStream) write(p []byte) (bool /* is newly completed */, int, error)
 			s.mutex.Lock()
 			break
 		}
+		verifhook.Point("sendStream.write.beforeWait")
 		if deadline.IsZero() {
 			<-s.writeChan
 		} else {
